@@ -122,6 +122,7 @@ fn main() {
         "C01" => props::c01::run(tier, seed, replay.as_deref()),
         "C02" => props::c02::run(tier, seed, replay.as_deref()),
         "C03" => props::c03::run(tier, seed, replay.as_deref()),
+        "C04" => props::c04::run(tier, seed, replay.as_deref()),
         "C05" => props::c05::run(tier, seed, replay.as_deref()),
         "C11" => props::c11::run(tier, seed, replay.as_deref()),
         "C10" => props::c10::run(tier, seed, replay.as_deref()),
